@@ -26,7 +26,7 @@ def platform_struct():
     """struct Platform with the integer members the kernels read, generated from lib/platform.h."""
     full = extract.strip_comments(extract.read("lib/platform.h"))
     fields = []
-    for mo in re.finditer(r'^\s*(std::uint8_t|std::size_t|bool|char)\s+((?:sizeof_|char_bit|short_bit|int_bit|long_bit|long_long_bit|defaultSign)\w*)\s*(?:\{[^}]*\})?\s*;', full, re.M):
+    for mo in re.finditer(r'^\s*(std::uint8_t|std::size_t|bool|char)\s+(sizeof_\w+|\w+_bit|defaultSign|windows)\s*(?:\{[^}]*\})?\s*;', full, re.M):
         ty = mo.group(1).replace("std::", "")
         if ty == "bool":
             ty = "_Bool"
@@ -35,3 +35,25 @@ def platform_struct():
         raise extract.ExtractError("lib/platform.h: found only %d Platform members" % len(fields))
     et, names = extract.enum_list("lib/platform.h", r'enum\s+Type\s*:\s*std::uint8_t\s*\{', "PType_")
     return "enum PType %s;\nstruct Platform { %s enum PType type; };\n" % (et, " ".join(fields)), [f.split()[1].rstrip(';') for f in fields], names
+
+
+def add_self(sig, self_decl, newname=None):
+    """member function signature -> free function with a leading self parameter.
+    `sig` is the text before the body; a trailing const qualifier is dropped."""
+    sig = re.sub(r'\)\s*const\s*$', ')', sig.strip())
+    sig = re.sub(r'^\s*(static|inline|virtual)\s+', '', sig)
+    mo = re.match(r'^(.*?)(\b[A-Za-z_]\w*)\s*\((.*)\)\s*$', sig, re.S)
+    if not mo:
+        raise extract.ExtractError("cannot parse member signature %r" % sig)
+    ret, name, params = mo.group(1), mo.group(2), mo.group(3).strip()
+    if newname:
+        name = newname
+    if self_decl:
+        params = self_decl + (", " + params if params and params != "void" else "")
+    return "%s%s(%s)" % (ret, name, params or "void")
+
+
+def member_macros(fields, undef=False):
+    if undef:
+        return "".join("#undef %s\n" % f for f in fields)
+    return "".join("#define %s (self->%s)\n" % (f, f) for f in fields)
